@@ -501,11 +501,14 @@ def _bits(mask):
     return [bool(x) for x in np.asarray(mask)]
 
 
-def _shape(tdgl, rnd):
+PLACES = [(0.0, 0.0), (0.0, 0.0), (400000.0, 250000.0), (-300000.0, 700000.0)]   # "any centre": also layout-style coordinates
+
+
+def _shape(tdgl, rnd, place=(0.0, 0.0)):
     from tdgl.geometry import box, circle, ellipse
 
     kind = rnd.choice(["circle", "ellipse", "ellipse", "box"])
-    c = (round(rnd.uniform(-1.5, 1.5), 3), round(rnd.uniform(-1.5, 1.5), 3))
+    c = (place[0] + round(rnd.uniform(-1.5, 1.5), 3), place[1] + round(rnd.uniform(-1.5, 1.5), 3))
     n = rnd.choice([7, 12, 25, 40, 100])
     if kind == "circle":
         pts = circle(round(rnd.uniform(0.4, 2.0), 3), points=n, center=c)
@@ -530,7 +533,11 @@ def _shape(tdgl, rnd):
 
 
 def _origin(rnd, p):
-    k = rnd.randrange(4)
+    k = rnd.randrange(5)
+    if k == 4:      # a point near the shape (matters for shapes far from (0, 0))
+        (a, b), (c, d) = p.bbox
+        o = (round((a + c) / 2 + rnd.uniform(-2, 2), 2), round((b + d) / 2 + rnd.uniform(-2, 2), 2))
+        return o, np.array(o), o
     if k == 0:
         return (0.0, 0.0), np.array([0.0, 0.0]), None
     if k == 1:
@@ -553,7 +560,8 @@ def relation_trace(tdgl, args, tmp):
     a copy that is mutated, a set operation with a second shape, a device with holes."""
     rnd = random.Random(args["seed"])
     ev = []
-    P, desc = _shape(tdgl, rnd)
+    place = rnd.choice(PLACES)
+    P, desc = _shape(tdgl, rnd, place)
     ev.append(dict(_flags(P), what="new " + desc))
     steps = [desc]
     for _ in range(args.get("transforms", 3)):
@@ -595,7 +603,7 @@ def relation_trace(tdgl, args, tmp):
         elif not (kind == "rotate" and deg % 360 == 0) and not (kind == "scale" and fx == 1 and fy == 1):
             ev.append({"rel": "moved", "x": before, "y": _hash_ints(P.points), "clause": "non-vacuity (in place moved the shape)", "what": what})
         P = Q
-        if P.area > 60 or max(abs(np.asarray(P.bbox)).ravel()) > 40:   # keep quantised areas far below 2^31
+        if P.area > 60 or max(P.extents) > 40:   # keep quantised areas far below 2^31
             P = P.scale(0.25, 0.25, origin="center")
     # a copy is mutated; the original must not move
     C = P.copy()
@@ -660,5 +668,35 @@ def relation_trace(tdgl, args, tmp):
                "what": what + ".translate"})
     ev.append({"rel": "ident", "same": any(x is y for x in D2.polygons for y in dev.polygons), "expect": False,
                "clause": "CopiesDoNotAlias", "what": "Device.translate(inplace=False) shares no polygon"})
-    return {"kind": "rel", "ev": ev, "key": f"rel seed={args['seed']}: " + " ; ".join(steps), "nset": nset, "seed": args["seed"],
-            "transforms": args.get("transforms", 3)}
+    # probe points of a device travel with its film and holes (any angle, any origin, any place)
+    inside = pts[dev.contains_points(pts)]
+    nprobe = 0
+    if len(inside) >= 2:
+        pp = inside[:3]
+        devp = tdgl.Device("dp", layer=layer, film=film.copy(), holes=[hh.copy() for hh in holes], probe_points=pp)
+        (a, b), (c, d) = film.bbox
+        org = rnd.choice([(0.0, 0.0), (round((a + c) / 2, 3), round((b + d) / 2, 3)), (round(a + rnd.uniform(-3, 3), 2), round(d + rnd.uniform(-3, 3), 2))])
+        o = np.array(org)
+        deg = rnd.choice([90, -90, 180, round(rnd.uniform(-180, 180), 2)])
+        th = math.radians(deg)
+        R = np.array([[math.cos(th), -math.sin(th)], [math.sin(th), math.cos(th)]])
+        fx, fy = rnd.choice([-2, -1, -0.5, 0.5, 1.5, 2]), rnd.choice([-1, 0.5, 1, 2])
+        sx, sy = round(rnd.uniform(-3, 3), 2), round(rnd.uniform(-3, 3), 2)
+        cases = [(f"Device.rotate({deg}, origin={org})", lambda: devp.rotate(deg, origin=org), (pp - o) @ R.T + o),
+                 (f"Device.scale({fx}, {fy}, origin={org})", lambda: devp.scale(xfact=fx, yfact=fy, origin=org), (pp - o) * np.array([fx, fy]) + o),
+                 (f"Device.translate({sx}, {sy})", lambda: devp.translate(sx, sy), pp + np.array([sx, sy])),
+                 ("Device.copy()", lambda: devp.copy(), pp)]
+        if org == (0.0, 0.0):
+            cases.append((f"Device.rotate({deg}) default origin", lambda: devp.rotate(deg), pp @ R.T))
+        for w3, f, want in cases:
+            D3 = f()
+            got = np.atleast_2d(np.asarray(D3.probe_points, dtype=float))
+            dev_q = [int(max(-10 ** 9, min(10 ** 9, round(v * 10 ** 6)))) for v in (got - want).ravel()] if got.shape == want.shape else [10 ** 9]
+            ev.append({"rel": "zero", "x": dev_q, "tol": 5, "clause": "PointsMapWithShapes (probe points of a device)", "what": w3})
+            ev.append({"rel": "bits", "x": [True] * len(got), "y": _bits(D3.contains_points(got)),
+                       "clause": "PointsMapWithShapes (probe points stay inside the device)", "what": w3})
+            nprobe += 1
+        ev.append({"rel": "same", "x": _hash_ints(pp), "y": _hash_ints(devp.probe_points), "clause": "NonInplaceNeverMutates (probe points)",
+                   "what": "non-in-place device transforms"})
+    return {"kind": "rel", "ev": ev, "key": f"rel seed={args['seed']} place={place}: " + " ; ".join(steps), "nset": nset, "seed": args["seed"],
+            "transforms": args.get("transforms", 3), "nprobe": nprobe, "place": list(place)}
